@@ -76,6 +76,15 @@ def table_hint(terms_list, ctx, tgt, size, spin):
     return hint
 
 
+def expand_mul(expr):
+    """Distribute products over sums but keep (bracket)**-n denominators
+    (sympy's full expand multiplies squared denominators out)."""
+    from sympy import expand
+    e2 = Expr(expand(expr.sympy, multinomial=False, power_base=False,
+                     power_exp=False, log=False), **expr.assumptions)
+    return e2
+
+
 def has_spin(ctx):
     return any(ix["p"] for ix in ctx.idx)
 
